@@ -340,6 +340,8 @@ type stepRec struct {
 	afTooBig   bool // the adaptation field alone exceeds a packet
 	forceRAP   bool // random access indicator on the PCR PID
 	payloadLen int
+	// fault injection
+	writeFailed bool // a Write of the underlying writer failed during this call
 }
 
 type muxTrace struct {
@@ -365,9 +367,10 @@ func (tr *muxTrace) render() string {
 
 // writerSpy lets tests substitute the writer (fault injection) while recording accepted bytes.
 type writerSpy struct {
-	buf   bytes.Buffer
-	calls int
-	fault func(call int, p []byte) (int, error) // nil = accept
+	buf    bytes.Buffer
+	calls  int
+	failed bool                                  // a Write returned an error since the flag was last cleared
+	fault  func(call int, p []byte) (int, error) // nil = accept
 }
 
 func (w *writerSpy) Write(p []byte) (int, error) {
@@ -381,6 +384,7 @@ func (w *writerSpy) Write(p []byte) (int, error) {
 			if err == nil {
 				err = io.ErrShortWrite
 			}
+			w.failed = true
 			return n, err
 		}
 		return n, nil
@@ -549,6 +553,7 @@ func runMuxHistory(period int, setPeriod bool, ops []muxOp, w *writerSpy, noReAd
 			st.desc = fmt.Sprintf("WritePacket(pid=%#x af=%v payload=%d)", op.pkt.Header.PID, op.pkt.Header.HasAdaptationField, len(op.pkt.Payload))
 		}
 		st.out = append([]byte{}, w.buf.Bytes()[before:]...)
+		st.writeFailed, w.failed = w.failed, false
 		st.cfgAfter = cfg.clone()
 		tr.steps = append(tr.steps, st)
 	}
